@@ -48,6 +48,13 @@ type tMap struct {
 	l              sync.RWMutex
 }
 
+// unescapeSegment decodes one segment of a pointer the way pointerstructure
+// does (RFC 6901: "~1" stands for "/", then "~0" for "~"), which gives the
+// map key the segment addresses.
+func unescapeSegment(seg string) string {
+	return strings.ReplaceAll(strings.ReplaceAll(seg, "~1", "/"), "~0", "~")
+}
+
 // markFieldFiltered will mark the specified field as "filtered"
 func (tm *tMap) markFieldFiltered(fieldName string) {
 	tm.l.Lock()
@@ -393,7 +400,7 @@ func (maps *trackedMaps) trackTaggable(taggable Taggable, pointer string) error 
 		if !ok {
 			return fmt.Errorf("%s: unable to get tracked map", op)
 		}
-		tm.markFieldFiltered(segs[len(segs)-1])
+		tm.markFieldFiltered(unescapeSegment(segs[len(segs)-1]))
 
 	default:
 		// the taggable map itself has to be filtered as well, even when no
@@ -429,7 +436,7 @@ func (maps *trackedMaps) trackTaggable(taggable Taggable, pointer string) error 
 		if !ok {
 			return fmt.Errorf("%s: unable to get tracked map", op)
 		}
-		tm.markFieldFiltered(segs[len(segs)-1])
+		tm.markFieldFiltered(unescapeSegment(segs[len(segs)-1]))
 	}
 	return nil
 }
